@@ -78,21 +78,31 @@ Definition no_mode3_b (es : list kfd) : bool :=
 Inductive ioitem :=
 | KV (name value : bytes)      (* "name: <decimal>"  *)
 | Junk (j : bytes)             (* blank or colon-free line *)
-| BadKV (name value : bytes).  (* "name: <letters>" -- malformed extra line *)
+| BadKV (name value : bytes)   (* "name: <not a number>" e.g. "rchar: 999 (partial)", "syscw: 7x" *)
+| Bad3 (name a b : bytes).     (* "name: a: b" -- more than one ": " *)
 Definition is_lower_us (c : Z) : bool := ((97 <=? c) && (c <=? 122)) || (c =? 95).
-Definition io_name_ok (n : bytes) : bool :=
-  match n with [] => false | _ => forallb is_lower_us n end.
-Definition junk_ok (j : bytes) : bool := negb (contains 58 j) && negb (contains 10 j).
+Definition is_name_ch (c : Z) : bool := is_lower_us c || (c =? 32).
+Definition head_nows (v : bytes) : bool := match v with c :: _ => negb (is_ws c) | [] => false end.
+Definition last_nows (v : bytes) : bool := head_nows (rev v).
+(* a field name: letters, '_' and inner blanks ("old read_bytes" is just another name) *)
+Definition io_name_ok (n : bytes) : bool := forallb is_name_ch n && head_nows n && last_nows n.
+Definition seg_ok (x : bytes) : bool := negb (contains 58 x) && negb (contains 10 x).
+(* a right-hand side Python's int() rejects *)
+Definition bad_val (v : bytes) : bool :=
+  head_nows v && last_nows v && seg_ok v && match parse_int v with None => true | Some _ => false end.
+Definition junk_ok (j : bytes) : bool := seg_ok j.
 Definition ioitem_ok (i : ioitem) : bool :=
   match i with
   | KV n v => io_name_ok n && is_dec v
   | Junk j => junk_ok j
-  | BadKV n v => io_name_ok n && io_name_ok v
+  | BadKV n v => io_name_ok n && bad_val v
+  | Bad3 n a b => io_name_ok n && seg_ok a && seg_ok b && last_nows b
   end.
 Definition k_ioline (i : ioitem) : bytes :=
   match i with
   | KV n v | BadKV n v => (n ++ 58 :: 32 :: v) ++ [10]
   | Junk j => j ++ [10]
+  | Bad3 n a b => (n ++ 58 :: 32 :: a ++ 58 :: 32 :: b) ++ [10]
   end.
 Definition k_io (items : list ioitem) : bytes := concat (map k_ioline items).
 
@@ -108,8 +118,8 @@ Fixpoint io_last (k : bytes) (items : list ioitem) (acc : option Z) : option Z :
   end.
 Definition is_kv (i : ioitem) : bool := match i with KV _ _ => true | _ => false end.
 Definition has_kv (items : list ioitem) : bool := existsb is_kv items.
-(* the six documented counters, each the value of the last line carrying that name;
-   no numeric line at all -> RuntimeError; a counter absent -> ValueError *)
+(* the six documented counters, each the value of the last well-formed line carrying that name;
+   every other line is ignored; no well-formed line at all -> RuntimeError; a counter absent -> ValueError *)
 Definition spec_io (items : list ioitem) : outcome (list Z) :=
   if has_kv items then
     mapM (fun k => of_option ValueError (io_last k items None)) io_keys
